@@ -381,6 +381,21 @@ class Gen:
             lv = self.pick_lvalue(sc, ty)
             if lv is None:
                 continue
+            if r.random() < (0.4 if lv[0] == 'fld' else 0.12):
+                # plain copy between two locations of one type (fields of one
+                # record, elements of one array, two scalars)
+                src = None
+                if lv[0] == 'fld' and lv[1][0] == 'var':
+                    rt = sc.var_type(lv[1][1])
+                    alts = [p for p, lt in self.env.leaves(rt) if lt == ty and p != lv[2]]
+                    if alts:
+                        src = ['fld', lv[1], r.choice(alts)]
+                elif lv[0] == 'idx':
+                    src = self.element(sc, lv[1])
+                if src is None:
+                    src = self.pick_lvalue(sc, ty, writable=False)
+                if src is not None and src != lv:
+                    return {'k': 'let', 'lv': lv, 'e': src}
             if ty == '$':
                 e = self.str_expr(sc, self.p['edepth'])
             else:
@@ -695,11 +710,43 @@ class Gen:
                 return {'k': 'exit', 'what': sc.in_loop[-1]}
         return self.assign(sc)
 
+    def fill_dump(self, sc):
+        """Write a distinct value into every element of an array with nested
+        FOR loops, then read all of them back: neighbours must not alias."""
+        r = self.r
+        cands = [(n, i) for n, i in sorted(sc.all_arrays().items())
+                 if i['ty'] in '%&!#' and not i['dyn'] or (i['ty'] in '%&!#' and r.random() < 0.5)]
+        if not cands:
+            return None
+        name, info = r.choice(cands)
+        ivs = [self.new_scalar(sc, '%') for _ in info['bounds']]
+        for v in ivs:
+            sc.frozen.add(v)
+        val = ['lit', '%', 0]
+        for k, v in enumerate(ivs):
+            val = ['bin', '+', ['bin', '*', val, ['lit', '%', 7]], ['var', v]]
+        elem = ['idx', name, [['var', v] for v in ivs]]
+
+        def nest(body_stmt):
+            st = body_stmt
+            for v, (lb, ub) in reversed(list(zip(ivs, info['bounds']))):
+                st = {'k': 'for', 'var': v, 'a': ['lit', '%', lb], 'b': ['lit', '%', ub],
+                      'step': None, 'nextvar': r.random() < 0.5, 'body': [st]}
+            return st
+        m = self.next_marker()
+        fill = nest({'k': 'let', 'lv': elem, 'e': val})
+        dump = nest({'k': 'print', 'items': [[['lit', '$', f'<{m}>'], ';'], [elem, ';']], 'marker': m})
+        return [fill, dump]
+
     def statement(self, sc, depth):
         """Returns a list of statements."""
         r = self.r
         self.stmt_budget -= 1
         x = r.random()
+        if self.p['arrays'] and self.p['loops'] and depth > 0 and r.random() < 0.06:
+            fd = self.fill_dump(sc)
+            if fd:
+                return fd
         if depth > 0 and self.stmt_budget > 0:
             if x < 0.12:
                 return [self.if_stmt(sc, depth)]
@@ -732,12 +779,16 @@ class Gen:
         for i in range(r.randint(1, 2)):
             name = self.fresh('rt')
             fields = []
+            # field names come from a small pool: different TYPEs share
+            # names, at different offsets and with different types
+            pool = ['fa', 'fb', 'fc', 'fd', 'fe', 'fg']
+            r.shuffle(pool)
             for j in range(r.randint(1, 4)):
                 if self.types and r.random() < 0.3:
                     ft = 'T:' + r.choice(self.types)['name']
                 else:
                     ft = r.choice(list(self.num_types) + (['$'] if self.p['strings'] else []))
-                fields.append([self.fresh('f'), ft])
+                fields.append([pool[j], ft])
             self.types.append({'name': name, 'fields': fields})
 
     def bounds(self):
@@ -1173,10 +1224,20 @@ class Gen:
             self.proc_body(p)
         deftypes = None
         if self.p.get('deftype'):
+            # DEFtype letter ranges (DEFINT N-P, DEFLNG S-V ...) that start
+            # or end on one of the generator's name stems
             deftypes = {}
-            for letter in 'vztpsn':
-                if r.random() < 0.5:
-                    deftypes[letter] = r.choice(self.num_types + (['$'] if self.p['strings'] else []))
+            tys = self.num_types + (['$'] if self.p['strings'] else [])
+            for lo, hi in (('n', 'p'), ('s', 't'), ('v', 'z')):
+                k = r.random()
+                if k < 0.35:
+                    t = r.choice(tys)
+                    for c in range(ord(lo), ord(hi) + 1):
+                        deftypes[chr(c)] = t
+                elif k < 0.7:
+                    for c in (lo, hi):
+                        if r.random() < 0.6:
+                            deftypes[c] = r.choice(tys)
         prog = {'deftypes': deftypes, 'strip_single': bool(self.p.get('deftype')) and r.random() < 0.6,
                 'types': self.types, 'main': main,
                 'procs': [{k: v for k, v in p.items()
@@ -1235,17 +1296,43 @@ def gen_script(r, meta=None, prof=None):
 
 BOUNDARY = {
     '%': (0, 1, -1, 2, 3, 7, 255, 256, 32767, -32767, 32766, 100, -8),
-    '&': (0, 1, -1, 2, 65535, 65536, 32768, -32769, 2147483647, -2147483647, 40000, 100000),
+    '&': (0, 1, -1, 2, 65535, 65536, 32768, -32769, 2147483647, -2147483647, 40000, 100000,
+          16777216, 16777217, 33554433),
     '!': (0.0, 0.5, -0.5, 1.5, 2.5, 3.5, -1.5, -2.5, 1.0, 16777216.0, 0.25, 32767.5, 65536.0,
-          10000000000.0),
+          10000000000.0, 0.1, 0.3, 2.675, 1.1, 33554432.0),
     '#': (0.0, 0.5, -0.5, 1.5, 2.5, -2.5, 1.0, 4294967296.0, 0.125, 32767.5, -32768.5,
-          2147483647.5, 1000000000000.0),
+          2147483647.5, 1000000000000.0, 0.1, 0.3, 2.675, 16777217.0),
 }
 C_OPS = ('+', '-', '*', '/', '\\', 'mod', 'and', 'or', 'xor', 'eqv', 'imp',
          '=', '<>', '<', '>', '<=', '>=')
 
 
-def const_expr(r, depth, strings=False):
+NEAR = (
+    (('&', 16777217), ('!', 16777216.0)), (('%', 32767), ('!', 32767.5)),
+    (('&', 2147483647), ('#', 2147483647.5)), (('!', 0.1), ('#', 0.1)),
+    (('&', 33554433), ('!', 33554432.0)), (('%', 3), ('!', 2.5)), (('%', 2), ('#', 2.5)),
+    (('&', 16777217), ('#', 16777217.0)), (('!', 0.3), ('#', 0.3)), (('&', 65536), ('!', 65536.0)),
+)
+
+
+def const_expr(r, depth, strings=False, vars=()):
+    if vars and r.random() < 0.3:
+        v = ['var', r.choice(vars)]
+        x = r.random()
+        if x < 0.25:
+            # double negation / double NOT of a variable (run-time code that
+            # only the peephole pass can touch)
+            op = r.choice(('neg', 'neg', 'not'))
+            return ['un', op, ['un', op, v]]
+        if depth <= 0 or x < 0.6:
+            return v
+        return ['bin', r.choice(C_OPS), v, const_expr(r, depth - 1, False, vars)]
+    if depth > 0 and r.random() < 0.12:
+        # two values that are neighbours across types, compared
+        a, b = r.choice(NEAR)
+        if r.random() < 0.5:
+            a, b = b, a
+        return ['bin', r.choice(CMP), ['lit', a[0], a[1]], ['lit', b[0], b[1]]]
     if strings and r.random() < 0.15:
         a = ['lit', '$', r.choice(('', 'a', 'B', 'ab', 'b', 'A'))]
         if depth > 0 and r.random() < 0.5:
@@ -1279,9 +1366,23 @@ def const_program(r):
     if handler:
         main.append({'k': 'onerr', 'mode': 'next'})
     consts = []
+    vars_ = []
+    if r.random() < 0.5:
+        # variables holding boundary values, incl. the type minima that have
+        # no literal (-32767 - 1)
+        for _ in range(r.randint(1, 3)):
+            ty = r.choice('%&!#')
+            nm = fresh('b', ty)
+            if ty in '%&' and r.random() < 0.4:
+                e0 = ['bin', '-', ['lit', ty, -32767 if ty == '%' else -2147483647], ['lit', '%', 1]]
+            else:
+                e0 = ['lit', ty, r.choice(BOUNDARY[ty])]
+            main.append({'k': 'let', 'lv': ['var', nm], 'e': e0})
+            vars_.append(nm)
     for _ in range(r.randint(1, 4)):
         form = r.choice(('print', 'print', 'const', 'let', 'if', 'dim', 'select', 'for'))
-        e = const_expr(r, r.choice((1, 1, 2, 2, 3)), strings=True)
+        ev = vars_ if form in ('print', 'let', 'if') else ()
+        e = const_expr(r, r.choice((1, 1, 2, 2, 3)), strings=True, vars=ev)
         if paren_depth(e) > 3:
             e = const_expr(r, 1)
         if form == 'print':
